@@ -1,26 +1,39 @@
 /-!
-# Process/channel model of one HTTP/2 relay session (`h2.Config.Proxy`, `relay.relayFrames`)
+# Process/channel/mutex model of one HTTP/2 relay session (`relay.relayFrames` ×2, h2/relay.go)
 
-One session = the goroutines started by `Config.Proxy` (h2/h2.go) and by the two calls of
-`relayFrames` (h2/relay.go), transcribed as a small-step system.  Frame *contents* are abstracted
-to what matters for termination: how many frames a received frame makes the reader push into which
-`output` channel.
+One session = the goroutines started by `Config.Proxy` (h2/h2.go) after the preface has been
+forwarded and by the two calls of `relayFrames` (h2/relay.go), transcribed as a small-step system.
+(The stages of `Config.Proxy` before that — dial, preface — are in `Model/H2Proxy.lean`, which
+embeds this machine as its `running` stage.)  Frame *contents* are abstracted to what matters for
+termination and for the locks: which mutexes `processFrame` takes for a received frame, which
+connection it writes to directly, and how many frames it pushes into which `output` channel.
 
-For each direction `d` (c2s: client→server, s2c: server→client):
-* the reader (the goroutine running `relayFrames`, states `Rd`): in the `select` with the
-  `ReadFrame` goroutine still blocked (`selReading`) or with the `frameReady` token present
-  (`selReady r`); inside `processFrame` waiting for `flowMu` of relay `t` (`lockWait t n`) or holding
-  it and pushing the remaining `n` frames into `t`'s `output` (`pushing t n`, the loop of
-  `emitEligibleFrames`: `output <- f` blocks while the channel is full, with `flowMu` held);
-  at the deferred `readerDone <- struct{}{}` (`exiting`); returned (`gone`);
-* the writer goroutine: alive exactly as long as the reader is not `gone` (it leaves only through
-  the `readerDone` rendez-vous); `failed` = its `err` variable is non-nil (it drains without
-  writing); `werr` = the token in `writerErr` (cap 1);
+For each direction `d` (c2s: client→server, s2c: server→client), relay `d`:
+* the reader (the goroutine running `relayFrames`, states `Rd`):
+  - in the `select` with the `ReadFrame` goroutine still blocked (`selReading`) or with the
+    `frameReady` token present (`selReady r`);
+  - inside `processFrame`:
+    `mWait t k` — at `destMu.Lock()` of relay `t` (t = d: SETTINGS / SETTINGS ack / PING / GOAWAY
+    forwarded directly; t = d.other: `peer.sendWindowUpdates` for a DATA frame);
+    `mHold t k` — holds that `destMu`, inside the connection write (`WritePing`, `WriteSettings`,
+    `WriteSettingsAck`, `WriteGoAway`, `WriteWindowUpdate`×2); `k = some n`: a DATA frame, the
+    payload is processed afterwards (`n` frames pushed into the own `output`);
+    `lockWait t n wr` — at `flowMu.Lock()` of relay `t`; `pushing t n wr` — holds it and pushes the
+    remaining `n` frames into `t`'s `output` (`emitEligibleFrames`: `output <- f` blocks while the
+    channel is full, with `flowMu` held); `wr = true`: a SETTINGS frame, `WriteSettings` follows;
+  - at the deferred `readerDone <- struct{}{}` (`exiting`); returned (`gone`);
+* the writer goroutine (`Wr`): in its `select` (`idle`), at `r.destMu.Lock()` with a frame taken
+  from `output` (`want`), inside `f.send(r.dest)` holding `destMu` (`hold`).  It leaves only
+  through the `readerDone` rendez-vous, so it is alive exactly as long as the reader is not `gone`;
+  `failed` = its `err` variable is non-nil (it drains without writing); `werr` = the token in
+  `writerErr` (cap 1);
 * `out` = number of frames in `output` (cap 15);
+* `dmu` = the owner of relay `d`'s `destMu` (explicit, `none` = unlocked);
 * `leak` = an abandoned `ReadFrame` goroutine is still blocked in the read (the reader left the
   `select` through `writerErr`/`closing` while no frame was ready);
-* `stalled` = the destination's peer does not take bytes: a connection write of the writer blocks.
-* `flowMu` of relay `t` is held exactly by a reader in state `pushing t _` (derived, `lockHeld`).
+* environment state of the connection relay `d` writes to: `stalled` (the peer does not take bytes:
+  a connection write blocks) and `wfail` (writes toward it fail, from now on; a blocked one too).
+* `flowMu` of relay `t` is held exactly by a reader in state `pushing t _ _` (derived, `lockHeld`).
 
 Session level: `done` (the channel closed by `stop()`), `closing` (the proxy's channel), the watcher
 goroutine (`select { <-closing: stop(); <-done }`), `returned` (`wg.Wait()` passed, the deferred
@@ -36,19 +49,24 @@ def Dir.other : Dir → Dir
   | .c2s => .s2c
   | .s2c => .c2s
 
-/-- What `processFrame` does with a received frame, as far as termination is concerned. -/
+/-- What `processFrame` does with a received frame, as far as termination and locks are concerned. -/
 inductive Work
-  /-- stream frame (HEADERS, DATA, PRIORITY, RST_STREAM, PUSH_PROMISE): under this relay's `flowMu`
-      `n` frames become eligible and are pushed into this relay's `output` (`n = 0`: queued behind a
-      zero window) -/
+  /-- HEADERS, PRIORITY, RST_STREAM, PUSH_PROMISE, CONTINUATION, DATA without payload: under this
+      relay's `flowMu` `n` frames become eligible and are pushed into this relay's `output`
+      (`n = 0`: queued behind a closed window) -/
   | own (n : Nat)
-  /-- WINDOW_UPDATE / SETTINGS(initial window): under the PEER relay's `flowMu`, `n` frames queued
-      there are pushed into the PEER's `output` (`peer.updateWindow`, `peer.updateInitialWindowSize`) -/
+  /-- DATA with payload: first `peer.sendWindowUpdates` — two WINDOW_UPDATEs written to this relay's
+      SOURCE connection under the PEER relay's `destMu` — then as `own n` -/
+  | data (n : Nat)
+  /-- WINDOW_UPDATE: under the PEER relay's `flowMu`, `n` frames queued there are pushed into the
+      PEER's `output` (`peer.updateWindow`) -/
   | peer (n : Nat)
-  /-- PING / SETTINGS / GOAWAY / window acknowledgement written straight to a connection under
-      `destMu`; `false` = the write failed -/
-  | direct (ok : Bool)
-  /-- `processFrame` returns an error (HPACK decoding, unknown frame type) -/
+  /-- SETTINGS (not an ack): `peer.updateInitialWindowSize` (as `peer n`), then `WriteSettings`
+      to this relay's destination under its own `destMu` -/
+  | settings (n : Nat)
+  /-- SETTINGS ack / PING / GOAWAY: one write to this relay's destination under its own `destMu` -/
+  | direct
+  /-- `processFrame` returns an error without having taken a lock (HPACK decoding, unknown type) -/
   | bad
 deriving DecidableEq, Repr
 
@@ -62,19 +80,33 @@ deriving DecidableEq, Repr
 inductive Rd
   | selReading
   | selReady (r : Res)
-  | lockWait (t : Dir) (n : Nat)
-  | pushing (t : Dir) (n : Nat)
+  | lockWait (t : Dir) (n : Nat) (wr : Bool)
+  | pushing (t : Dir) (n : Nat) (wr : Bool)
+  | mWait (t : Dir) (k : Option Nat)
+  | mHold (t : Dir) (k : Option Nat)
   | exiting
   | gone
 deriving DecidableEq, Repr
 
+/-- The writer goroutine of a relay. -/
+inductive Wr | idle | want | hold
+deriving DecidableEq, Repr
+
+/-- Who owns a relay's `destMu`: its writer goroutine, its own reader (directly forwarded control
+    frame), or the peer relay's reader (window acknowledgement of a DATA frame). -/
+inductive Holder | writer | own | peer
+deriving DecidableEq, Repr
+
 structure Side where
   r : Rd := .selReading
+  w : Wr := .idle
   failed : Bool := false
   out : Nat := 0
   werr : Bool := false
   leak : Bool := false
   stalled : Bool := false
+  wfail : Bool := false
+  dmu : Option Holder := none
 deriving DecidableEq, Repr
 
 structure Sys where
@@ -91,7 +123,7 @@ deriving DecidableEq, Repr
 /-- State right after `Proxy` has started both relays. -/
 def init : Sys := {}
 
-/-- `outputChannelSize` -/
+/-- `outputChannelSize` (pinned to the source by `Props/C10/Facts.lean`). -/
 def cap : Nat := 15
 
 def Sys.side (s : Sys) : Dir → Side
@@ -104,11 +136,21 @@ def Sys.setSide (s : Sys) (d : Dir) (x : Side) : Sys :=
   | .s2c => { s with s := x }
 
 def Rd.isPushing : Rd → Dir → Bool
-  | .pushing t _, u => t == u
+  | .pushing t _ _, u => t == u
   | _, _ => false
 
 /-- `flowMu` of relay `t` is held. -/
 def lockHeld (s : Sys) (t : Dir) : Bool := s.c.r.isPushing t || s.s.r.isPushing t
+
+/-- The reader is inside a connection write under `destMu` of relay `t`. -/
+def Rd.holdsDest : Rd → Dir → Bool
+  | .mHold t _, u => t == u
+  | _, _ => false
+
+/-- The reader is somewhere inside `processFrame`. -/
+def Rd.inProcessFrame : Rd → Bool
+  | .lockWait _ _ _ | .pushing _ _ _ | .mWait _ _ | .mHold _ _ => true
+  | _ => false
 
 def Rd.inSelect : Rd → Bool
   | .selReading | .selReady _ => true
@@ -117,6 +159,13 @@ def Rd.inSelect : Rd → Bool
 def Rd.isReading : Rd → Bool
   | .selReading => true
   | _ => false
+
+/-- Which of the three possible owners of relay `t`'s `destMu` are, by their control state, inside
+    the critical section (`Good` states that this list is exactly the explicit owner `dmu`). -/
+def destUsers (s : Sys) (t : Dir) : List Holder :=
+  (if (s.side t).w == .hold then [Holder.writer] else []) ++
+  (if (s.side t).r.holdsDest t then [Holder.own] else []) ++
+  (if (s.side t.other).r.holdsDest t then [Holder.peer] else [])
 
 /-- The connection `d`'s reader reads from has been closed locally. -/
 def srcClosed (s : Sys) : Dir → Bool
@@ -130,15 +179,20 @@ inductive Label
   | callerClose                   -- the caller of Proxy closes the client connection (after return)
   | stall (d : Dir)
   | unstall (d : Dir)
+  | failWrites (d : Dir)          -- from now on writes to relay d's destination fail
   -- processes
   | rTake (d : Dir)               -- select arm frameReady
   | rWerr (d : Dir)               -- select arm writerErr
   | rDone (d : Dir)               -- select arm closing (= done)
   | acquire (d : Dir)             -- flowMu.Lock()
   | push (d : Dir)                -- output <- f
-  | release (d : Dir)             -- flowMu.Unlock(), back to the select, new ReadFrame goroutine
+  | release (d : Dir)             -- flowMu.Unlock(); back to the select (new ReadFrame goroutine) or on to WriteSettings
+  | mAcquire (d : Dir)            -- reader d: destMu.Lock() (own or peer's)
+  | mDone (d : Dir)               -- reader d: the write completes or fails, destMu.Unlock(), processFrame goes on / returns the error
   | handshake (d : Dir)           -- readerDone rendez-vous, relayFrames returns, stop(), wg.Done()
-  | wSend (d : Dir) (ok : Bool)   -- writer takes a frame from output and writes it (ok) / fails
+  | wTake (d : Dir)               -- writer: f := <-r.output (dropped when err != nil)
+  | wLock (d : Dir)               -- writer: r.destMu.Lock()
+  | wDone (d : Dir)               -- writer: f.send completes or fails, r.destMu.Unlock(), writerErr <- err
   | watchClosing                  -- watcher: <-closing → stop()
   | watchDone                     -- watcher: <-done
   | ret                           -- wg.Wait() passes, deferred sc.Close(), Proxy returns
@@ -146,25 +200,39 @@ inductive Label
 deriving DecidableEq, Repr
 
 def Label.isProc : Label → Bool
-  | .deliver _ _ | .closing | .callerClose | .stall _ | .unstall _ => false
+  | .deliver _ _ | .closing | .callerClose | .stall _ | .unstall _ | .failWrites _ => false
   | _ => true
 
 /-- All process labels (finite). -/
 def procLabels : List Label :=
   [.rTake .c2s, .rTake .s2c, .rWerr .c2s, .rWerr .s2c, .rDone .c2s, .rDone .s2c,
    .acquire .c2s, .acquire .s2c, .push .c2s, .push .s2c, .release .c2s, .release .s2c,
-   .handshake .c2s, .handshake .s2c, .wSend .c2s true, .wSend .c2s false, .wSend .s2c true, .wSend .s2c false,
+   .mAcquire .c2s, .mAcquire .s2c, .mDone .c2s, .mDone .s2c,
+   .handshake .c2s, .handshake .s2c,
+   .wTake .c2s, .wTake .s2c, .wLock .c2s, .wLock .s2c, .wDone .c2s, .wDone .s2c,
    .watchClosing, .watchDone, .ret, .rfClosed .c2s, .rfClosed .s2c]
 
 /-- Where the reader goes after taking the `frameReady` token. -/
 def afterTake (d : Dir) : Res → Rd
-  | .frame (.own n) => .lockWait d n
-  | .frame (.peer n) => .lockWait d.other n
-  | .frame (.direct true) => .selReading
-  | .frame (.direct false) => .exiting
+  | .frame (.own n) => .lockWait d n false
+  | .frame (.data n) => .mWait d.other (some n)
+  | .frame (.peer n) => .lockWait d.other n false
+  | .frame (.settings n) => .lockWait d.other n true
+  | .frame .direct => .mWait d none
   | .frame .bad => .exiting
   | .eof => .exiting
   | .err => .exiting
+
+/-- Where the reader goes when its direct connection write has completed (`fail = false`) or failed:
+    the error is returned by `processFrame` (after the unlock), a DATA frame's payload is processed,
+    any other frame is done. -/
+def afterWrite (d : Dir) : Option Nat → Bool → Rd
+  | _, true => .exiting
+  | some n, false => .lockWait d n false
+  | none, false => .selReading
+
+/-- Which owner a reader of relay `d` is for `destMu` of relay `t`. -/
+def holderOf (d t : Dir) : Holder := if d == t then .own else .peer
 
 def step (s : Sys) : Label → Option Sys
   | .deliver d r =>
@@ -176,6 +244,7 @@ def step (s : Sys) : Label → Option Sys
   | .callerClose => if s.returned then some { s with ccClosed := true } else none
   | .stall d => some (s.setSide d { s.side d with stalled := true })
   | .unstall d => some (s.setSide d { s.side d with stalled := false })
+  | .failWrites d => some (s.setSide d { s.side d with wfail := true })
   | .rTake d =>
     let x := s.side d
     match x.r with
@@ -194,14 +263,14 @@ def step (s : Sys) : Label → Option Sys
   | .acquire d =>
     let x := s.side d
     match x.r with
-    | .lockWait t n => if lockHeld s t then none else some (s.setSide d { x with r := .pushing t n })
+    | .lockWait t n wr => if lockHeld s t then none else some (s.setSide d { x with r := .pushing t n wr })
     | _ => none
   | .push d =>
     let x := s.side d
     match x.r with
-    | .pushing t (n+1) =>
+    | .pushing t (n+1) wr =>
       if Nat.blt (s.side t).out cap then
-        let s1 := s.setSide d { x with r := .pushing t n }
+        let s1 := s.setSide d { x with r := .pushing t n wr }
         let y := s1.side t
         some (s1.setSide t { y with out := y.out + 1 })
       else none
@@ -209,22 +278,51 @@ def step (s : Sys) : Label → Option Sys
   | .release d =>
     let x := s.side d
     match x.r with
-    | .pushing _ 0 => some (s.setSide d { x with r := .selReading })
+    | .pushing _ 0 true => some (s.setSide d { x with r := .mWait d none })
+    | .pushing _ 0 false => some (s.setSide d { x with r := .selReading })
+    | _ => none
+  | .mAcquire d =>
+    let x := s.side d
+    match x.r with
+    | .mWait t k =>
+      if (s.side t).dmu.isNone then
+        let s1 := s.setSide d { x with r := .mHold t k }
+        let y := s1.side t
+        some (s1.setSide t { y with dmu := some (holderOf d t) })
+      else none
+    | _ => none
+  | .mDone d =>
+    let x := s.side d
+    match x.r with
+    | .mHold t k =>
+      let y := s.side t
+      if !y.stalled || y.wfail then
+        let s1 := s.setSide d { x with r := afterWrite d k y.wfail }
+        let y1 := s1.side t
+        some (s1.setSide t { y1 with dmu := none })
+      else none
     | _ => none
   | .handshake d =>
     let x := s.side d
     match x.r with
     | .exiting =>
-      -- the writer receives from readerDone only when it is not blocked inside a write
-      if !x.stalled || x.failed || x.out == 0 then
-        some { s.setSide d { x with r := .gone } with done := true }
-      else none
+      -- the writer receives from readerDone only in its select
+      if x.w == .idle then some { s.setSide d { x with r := .gone } with done := true } else none
     | _ => none
-  | .wSend d ok =>
+  | .wTake d =>
     let x := s.side d
-    if x.r != .gone && x.out > 0 && (!x.stalled || x.failed) then
-      if !x.failed && !ok then some (s.setSide d { x with out := x.out - 1, failed := true, werr := true })
-      else some (s.setSide d { x with out := x.out - 1 })
+    if x.r != .gone && x.w == .idle && x.out > 0 then
+      if x.failed then some (s.setSide d { x with out := x.out - 1 })
+      else some (s.setSide d { x with out := x.out - 1, w := .want })
+    else none
+  | .wLock d =>
+    let x := s.side d
+    if x.w == .want && x.dmu.isNone then some (s.setSide d { x with w := .hold, dmu := some .writer }) else none
+  | .wDone d =>
+    let x := s.side d
+    if x.w == .hold && (!x.stalled || x.wfail) then
+      if x.wfail then some (s.setSide d { x with w := .idle, dmu := none, failed := true, werr := true })
+      else some (s.setSide d { x with w := .idle, dmu := none })
     else none
   | .watchClosing =>
     if s.watcher && s.closing then some { s with done := true, watcher := false } else none
@@ -256,23 +354,36 @@ def Rd.wt : Rd → Nat
   | .gone => 0
   | .exiting => 1
   | .selReading => 4
-  | .selReady (.frame (.own n)) => 7 + 2 * n
-  | .selReady (.frame (.peer n)) => 7 + 2 * n
-  | .selReady (.frame (.direct true)) => 5
+  | .mHold _ none => 5
+  | .mWait _ none => 6
+  | .pushing _ n false => 5 + 4 * n
+  | .pushing _ n true => 7 + 4 * n
+  | .lockWait _ n false => 6 + 4 * n
+  | .lockWait _ n true => 8 + 4 * n
+  | .mHold _ (some n) => 7 + 4 * n
+  | .mWait _ (some n) => 8 + 4 * n
+  | .selReady (.frame (.own n)) => 7 + 4 * n
+  | .selReady (.frame (.peer n)) => 7 + 4 * n
+  | .selReady (.frame (.data n)) => 9 + 4 * n
+  | .selReady (.frame (.settings n)) => 9 + 4 * n
+  | .selReady (.frame .direct) => 7
   | .selReady _ => 3
-  | .lockWait _ n => 6 + 2 * n
-  | .pushing _ n => 5 + 2 * n
 
-def Side.wt (x : Side) : Nat := x.r.wt + x.out + (if x.leak then 1 else 0)
+def Wr.wt : Wr → Nat
+  | .idle => 0
+  | .hold => 1
+  | .want => 2
+
+def Side.wt (x : Side) : Nat := x.r.wt + 3 * x.out + x.w.wt + (if x.leak then 1 else 0)
 
 def mu (s : Sys) : Nat :=
   s.c.wt + s.s.wt + (if s.watcher then 1 else 0) + (if s.returned then 0 else 1)
 
-/-- A terminating event has happened (state-based). -/
+/-- A terminating event has been seen by the session (state-based). -/
 def Rd.terminal : Rd → Bool
   | .exiting | .gone => true
   | .selReady .eof | .selReady .err => true
-  | .selReady (.frame .bad) | .selReady (.frame (.direct false)) => true
+  | .selReady (.frame .bad) => true
   | _ => false
 
 def termed (s : Sys) : Bool :=
@@ -284,15 +395,15 @@ def unstalled (s : Sys) : Bool := !s.c.stalled && !s.s.stalled
     full and the peer's writer has already left. -/
 def f10cBlockedAt (s : Sys) (d : Dir) : Bool :=
   match (s.side d).r with
-  | .pushing t (_+1) => t == d.other && (s.side t).r == .gone && (s.side t).out ≥ cap
+  | .pushing t (_+1) _ => t == d.other && (s.side t).r == .gone && (s.side t).out ≥ cap
   | _ => false
 
 def f10cBlocked (s : Sys) : Bool := f10cBlockedAt s .c2s || f10cBlockedAt s .s2c
 
 /-- No reader is (about to be) pushing into the other relay's output. -/
 def Rd.noPeer (d : Dir) : Rd → Bool
-  | .lockWait t _ | .pushing t _ => t == d
-  | .selReady (.frame (.peer _)) => false
+  | .lockWait t _ _ | .pushing t _ _ => t == d
+  | .selReady (.frame (.peer _)) | .selReady (.frame (.settings _)) => false
   | _ => true
 
 def noPeer (s : Sys) : Bool := s.c.r.noPeer .c2s && s.s.r.noPeer .s2c
